@@ -27,7 +27,7 @@ func init() {
 	})
 	register("C02", backendPkgsPlonk, func(p *Prog, r *Report) {
 		r.Engines = []string{"verifier(V-PASS,V-COVER,V-GUARD-LEN,V-ERR)"}
-		r.Explanation = "Static analysis of the 7 generated PLONK Verify functions. Decided: (V-PASS) every accepting exit passes the reviewed check events — BSB22 count guard, witness length guard, subgroup check of every G1 element of the proof (LRO, Z, H, Bsb22Commitments, both opening quotients), Fiat-Shamir binding of every key digest, public input and prover message and the four challenge derivations, the algebraic-relation equality, the linearised-digest MultiExp, kzg.FoldProof and kzg.BatchVerifyMultiPoints — with reviewed argument provenance (which proof/key fields each check depends on); (V-COVER) every Proof field and the public witness reach a check event; (V-GUARD-LEN) variable-length proof parts are length-fixed on accepting paths; (V-ERR) no discarded error. NOT decided: that the algebraic identity is the right one, that Setup's permutation encodes every copy constraint, KZG internals, challenge ordering (see fsbind when present)."
+		r.Explanation = "Static analysis of the 7 generated PLONK Verify functions. Decided: (V-PASS) every accepting exit passes the reviewed check events — BSB22 count guard, witness length guard, subgroup check of every G1 element of the proof (LRO, Z, H, Bsb22Commitments, both opening quotients), Fiat-Shamir binding of every key digest, public input and prover message and the four challenge derivations, the algebraic-relation equality, the linearised-digest MultiExp, kzg.FoldProof and kzg.BatchVerifyMultiPoints — with reviewed argument provenance (which proof/key fields each check depends on); (V-COVER) every Proof field and the public witness reach a check event; (V-GUARD-LEN) variable-length proof parts are length-fixed on accepting paths; (V-ERR) no discarded error; (PERM-CYCLE) in Setup's buildPermutation every entry of the wiring permutation committed in the key is the initial marker or a value of the per-variable last-seen table (no position is made a fixed point), the last-seen table is updated in every iteration of the position loop, and the three wires of every constraint are entered into the position table. NOT decided: that the algebraic identity is the right one, the selector polynomials of the key, KZG internals, challenge ordering (see fsbind when present)."
 		r.RuleText = "one obligation per (rule, sibling package, construct); nontrivial = discharged by a witness"
 		r.Assumptions = []string{cgAssumption, "trust partition: *Proof and the public witness are attacker-controlled; *VerifyingKey and options are trusted", "kzg.FoldProof returns an error unless len(digests)==len(ClaimedValues)"}
 		ve, err := newVerifierEngine(p)
@@ -37,6 +37,8 @@ func init() {
 		}
 		RunSibling(p, r, "C02")
 		ve.RunTargets("C02", r, "pass", "cover", "guard-len", "err")
+		RunPermCycle(p, r)
+		r.RequireMin("PERM-CYCLE", 7*3)
 		r.RequireMin("V-PASS", 7*28)
 		r.RequireMin("V-COVER", 7*8)
 	})
